@@ -357,6 +357,10 @@ def zero_probe(param, update, limit, **kw):
     return torch.zeros_like(update)
 
 
+def pass_probe(param, update, limit, **kw):
+    return update
+
+
 def routing_shard():
     """an upper-bound probe that returns 0 leaves only the depressing part applied, and symmetrically"""
     tally = Tally()
@@ -365,7 +369,7 @@ def routing_shard():
     hs = all_histories(3, 2)
     for sign in c08.SIGNS:
         for kind in ("stdp", "mstdpet"):
-            for which in ("upper", "lower"):
+            for which in ("upper", "lower", "lower-then-upper"):
                 for h in hs:
                     tally.add("evaluations")
                     layer = spec.build(dt, 1)
@@ -374,8 +378,11 @@ def routing_shard():
                     acc = layer.connection.updater.weight
                     if which == "upper":
                         acc.upperbound(zero_probe, 1.0)
-                    else:
+                    elif which == "lower":
                         acc.lowerbound(zero_probe, 0.0)
+                    else:  # a pass-through upper half installed after the lower probe must leave the lower probe in place
+                        acc.lowerbound(zero_probe, 0.0)
+                        acc.upperbound(pass_probe, 1.0)
                     w0 = layer.connection.weight.detach().clone()
                     for t in range(3):
                         step_layer(layer, spec.pre_tensor([h[t][:1]]), spec.post_tensor([h[t][1:]]))
@@ -409,6 +416,8 @@ def run(rep):
             sp = "stepalt" if kind in ("mstdp", "mstdpet") else "pos"
             jobs.append((c08.history_shard, (kind, "dense", (1, 1), T1, 1.0, sign, "cumulative", None, sp)))
             jobs.append((c08.history_shard, (kind, "dense", (2, 2), 2, 1.0, sign, "nearest", None, sp)))
+            # hyper-parameters as per-cell overrides of a trainer built with decoy defaults (opposite signs): the split follows the cell
+            jobs.append((c08.history_shard, (kind, "dense", (1, 1), T1, 1.0, sign, "cumulative", None, sp, True)))
     # per-sample reward tensors: every (sample, term) is routed by lr sign x reward sign, incl. the pure sign modes where a
     # uniform reward leaves one part empty
     for kind in ("mstdp", "mstdpet"):
